@@ -132,7 +132,12 @@ def gen_c03():
     o = os.path.join(VERIF, "lean", "RSVerif", "Gen", "SrcGlue.lean")
     p = subprocess.run([sys.executable, os.path.join(VERIF, "translate", "rs2lean_glue.py"), "/repo", o],
                        stdout=subprocess.PIPE, stderr=subprocess.STDOUT, text=True)
-    return p.returncode, out + p.stdout
+    if p.returncode != 0:
+        return p.returncode, out + p.stdout
+    out += p.stdout
+    # Statics.lean: no ambient inputs (threads / CPU count / environment / clocks …) anywhere in the crate
+    rc, o2 = gen_statics()
+    return rc, out + o2
 
 
 TECH_TRE = ("Lean 4 machine-checked proof; the transform loop nests of the Naive / NoSimd / Ssse3 / Avx2 engines (nested while/for "
